@@ -151,3 +151,4 @@ prop("C01", fucs=["liquer.context.Context.create_initial_state", "liquer.state.S
 prop("C04", fucs=["liquer.context.Context.evaluate"])
 prop("C09", fucs=["liquer.context.Context.evaluate", "liquer.context.Context.create_initial_state"])
 prop("C06", fucs=["liquer.context.Context.evaluate"])
+prop("C18", fucs=["liquer.context.Context.evaluate"])
